@@ -1115,4 +1115,4 @@ Definition current_behaviour : behaviour :=
      b_append_type_first := true;    (* fixed in /repo: 333dc71 *)
      b_df_colname_check := true;    (* fixed in /repo: 9dd5538 *)
      b_array_rank_max := true;       (* fixed in /repo: 65ab894 *)
-     b_create_typed_first := false   (* NOT fixed in /repo: notes/proposed-fixes/C08-5-createDataArray-template-type-first.patch *) |}.
+     b_create_typed_first := true    (* fixed in /repo: b2f41f8 (by deleting the array again when the write fails) *) |}.
